@@ -1200,9 +1200,11 @@ func (vx *Vaxis) sendQueries() {
 	// Can the terminal report its own size?
 	_, _ = vx.tw.WriteString(textAreaSize)
 
-	// Explicit width query
-	_, _ = vx.tw.WriteString("\x1b[H")
-	_, _ = fmt.Fprintf(vx.tw, explicitWidth, 1, " ")
+	// Explicit width query. CursorPosition writes its query directly to
+	// the console, so the probe it measures has to be written directly as
+	// well: left in the buffered writer it would reach the terminal only
+	// after the cursor position had been reported
+	_, _ = io.WriteString(vx.console, "\x1b[H"+tparm(explicitWidth, 1, " "))
 	_, col := vx.CursorPosition()
 	if col == 1 {
 		log.Debug("[capability] explicit width supported")
